@@ -91,6 +91,10 @@ var mutOps = []mutOp{
 	{"C09", "C09.R9", "main.go", `(?s)if options\.MaxDepth > 0 \{\s+ns\.MaxDepth = options\.MaxDepth\s+\}`, "", "script files run without the depth limit of the command line"},
 	{"C09", "C09.R7", "eval/macro_expension.go", `\tres\.depth = s\.depth[^\n]*\n`, "", "macro expansion states restart the depth count"},
 	{"C07", "C07.R14", "extensions/images.go", `if !\(v > -maxCoord && v < maxCoord\)`, "if !(v < maxCoord)", "path coordinates lose their lower bound"},
+	{"C01", "C01.R11", "eval/eval.go", `lastEval = object\.Value\(nextEval\) // not a reference that later iterations can change\.`, "lastEval = nextEval", "a loop keeps the reference again"},
+	{"C18", "C18.R5", "object/state.go", `(?s)_, err := fmt\.Fprintf\(to, "%s\\n", f\.Inspect\(\)\)\s+if err != nil \{\s+return n, err\s+\}`, "fmt.Fprintf(to, \"%s\\n\", f.Inspect())", "write error of a function line dropped"},
+	{"C12", "C12.R7", "object/object.go", `return a == b \|\| \(IsIntType\(a\) && IsIntType\(b\)\)`, "return a == b || (a == REGISTER && b == INTEGER)", "TypeEqual loses symmetry"},
+	{"C20", "C20.R8", "object/state.go", `if ids == nil \{\n\t\treturn\n\t\}\n\tif t == FUNC`, "if ids == nil || ids.Prefix(key) != nil {\n\t\treturn\n\t}\n\tif t == FUNC", "names that are a prefix of a known one are not indexed"},
 	{"C01", "C01.R8", "eval/eval.go", `condition := object\.Value\(s\.evalInternal\(ie\.Condition\)\)`, "condition := s.evalInternal(ie.Condition)", "if condition no longer dereferenced"},
 	{"C07", "C07.R9", "object/object.go", `return NULL, false, m\.len\n`, "return NULL, false, m.len + 1\n", "SmallMap.get reports an insertion point past len (relational summary)"},
 	{"C07", "C07.R9", "object/object.go", `if nl > MaxSmallMap \{\n\t\treturn &BigMap\{kv: m\.kv\[1:\]\}`, "if nl > MaxSmallMap+1 {\n\t\treturn &BigMap{kv: m.kv[1:]}", "small-map threshold off by one"},
